@@ -206,6 +206,60 @@ def _eval_excuse(expr: str, args: dict):
         c.quant_depth -= 1
 
 
+def _expand_store_reads(t):
+    """Select(Store(a, i, v), j) -> If(j == i, v, Select(a, j)), recursively (z3's simplifier does this only
+    when it can decide i == j)"""
+    cache = {}
+
+    def go(x):
+        k_ = x.get_id()
+        if k_ in cache:
+            return cache[k_]
+        if z3.is_quantifier(x) or not z3.is_app(x) or x.num_args() == 0:
+            cache[k_] = x
+            return x
+        kids = [go(ch) for ch in x.children()]
+        if x.decl().kind() == z3.Z3_OP_SELECT and len(kids) == 2:
+            arr, idx = kids
+
+            def rd(a):
+                if z3.is_app(a) and a.decl().kind() == z3.Z3_OP_STORE:
+                    return z3.If(idx == a.arg(1), a.arg(2), rd(a.arg(0)))
+                if z3.is_app(a) and a.decl().kind() == z3.Z3_OP_ITE:
+                    return z3.If(a.arg(0), rd(a.arg(1)), rd(a.arg(2)))
+                return z3.Select(a, idx)
+
+            r = rd(arr)
+            cache[k_] = r
+            return r
+        try:
+            r = x.decl()(*kids)
+        except Exception:  # pylint: disable=broad-except
+            r = x
+        cache[k_] = r
+        return r
+
+    return go(t)
+
+
+def _first_ite_condition(t):
+    """condition of some if-then-else sub-term of t (outside quantifiers), or None"""
+    seen = set()
+    stack = [t]
+    while stack:
+        x = stack.pop()
+        k_ = x.get_id()
+        if k_ in seen:
+            continue
+        seen.add(k_)
+        if z3.is_quantifier(x) or not z3.is_app(x):
+            continue
+        if x.decl().kind() == z3.Z3_OP_ITE and not z3.is_bool(x):
+            return x.arg(0)
+        stack.extend(x.children())
+    return None
+
+
 def _cross_check(assumptions, t, inst):
     """thorough tier: an instance z3 discharged is sent to cvc5 as well; cvc5 answering `sat` is a
     disagreement between the back ends (checker error), `unknown` is recorded and changes nothing"""
@@ -240,13 +294,71 @@ class Recorder:
 
     def __call__(self, c: Ctx, oid: str, t, meta):
         t0 = time.time()
-        inst = dict(oid=oid, case=self.case_idx, path=list(c.decisions), kind=meta.get("kind", ""), note=meta.get("note", ""), line=meta.get("line"))
         ts = z3.simplify(t)
+        splittable = z3.is_and(ts) and ts.num_args() > 1 and "_part" not in meta
+        if splittable and not meta.get("_split_now") and not any(z3.is_quantifier(ch) for ch in ts.children()):
+            # quantifier-free conjunction: try it whole first (often easier for the solver than its
+            # parts); only if that stays undecided prove it conjunct by conjunct
+            n0 = len(self.instances)
+            self(c, oid, t, dict(meta, _part=-1))
+            whole = self.instances[n0]
+            if whole["status"] != "unknown":
+                whole.pop("_part", None)
+                return
+            del self.instances[n0:]
+            return self(c, oid, t, dict(meta, _split_now=True))
+        if splittable:
+            # a conjunction is proved conjunct by conjunct (smaller queries; the report names the conjunct)
+            n0 = len(self.instances)
+            for k_, ch in enumerate(ts.children()):
+                self(c, oid, ch, dict(meta, _part=k_))
+            parts = self.instances[n0:]
+            del self.instances[n0:]
+            rank = {"failed": 0, "unknown": 1, "discharged": 2}
+            worst = min(parts, key=lambda p_: rank.get(p_["status"], 1))
+            inst = dict(worst)
+            inst["conjuncts"] = len(parts)
+            inst["time"] = round(sum(p_.get("time", 0.0) for p_ in parts), 4)
+            if worst["status"] != "discharged":
+                inst["note"] = ((inst.get("note") or "") + f" | conjunct {worst.get('_part')} of {len(parts)}: {str(ts.arg(worst.get('_part', 0)))[:300]}").strip(" |")
+            self.instances.append(inst)
+            return
+        inst = dict(oid=oid, case=self.case_idx, path=list(c.decisions), kind=meta.get("kind", ""), note=meta.get("note", ""), line=meta.get("line"))
+        if "_part" in meta:
+            inst["_part"] = meta["_part"]
+        if z3.is_quantifier(ts) and ts.is_forall():
+            # a universally quantified CLAIM is valid iff its body is valid for fresh constants
+            # (skolemisation of the negated claim): the solver is left with quantifiers on the assumption side only
+            fresh = [z3.Const(c.fresh_name(f"sk.{ts.var_name(i_)}"), ts.var_sort(i_)) for i_ in range(ts.num_vars())]
+            t = z3.substitute_vars(ts.body(), *reversed(fresh))
+            ts = z3.simplify(t)
+            meta = dict(meta, _sk=True)
+            ts = z3.simplify(_expand_store_reads(ts))
         if z3.is_true(ts):
             inst.update(status="discharged", backend="trivial", time=0.0)
             self.by_backend["trivial"] += 1
             self.instances.append(inst)
             return
+        # a claim that reads freshly written arrays (Store(a, i, v)[j]) or contains other if-then-else terms
+        # is split on the first condition: (cond => claim[then]) and (not cond => claim[else]); each half
+        # is a simpler query (e.g. "the new pair" / "an old pair" of a sequence invariant)
+        depth = meta.get("_ite_depth", 0)
+        if depth < 4 and (meta.get("_sk") or depth > 0):
+            cond = _first_ite_condition(ts)
+            if cond is not None:
+                n0 = len(self.instances)
+                for val in (True, False):
+                    half = z3.simplify(z3.substitute(ts, (cond, z3.BoolVal(val))))
+                    guard = cond if val else z3.Not(cond)
+                    self(c, oid, z3.Implies(guard, half), dict(meta, _ite_depth=depth + 1, _part=meta.get("_part", 0)))
+                parts = self.instances[n0:]
+                del self.instances[n0:]
+                rank = {"failed": 0, "unknown": 1, "discharged": 2}
+                worst = min(parts, key=lambda p_: rank.get(p_["status"], 1))
+                combined = dict(worst)
+                combined["time"] = round(sum(p_.get("time", 0.0) for p_ in parts), 4)
+                self.instances.append(combined)
+                return
         # zeroth attempt: cone of influence -- only the assumptions that share symbols (transitively)
         # with the claim; drops e.g. the polynomial facts about affine coefficients from a claim about
         # integer pixel ranges
@@ -265,6 +377,27 @@ class Recorder:
                 self.solver_time += time.time() - t0
                 self.instances.append(inst)
                 return
+        # (a') quantified facts about arrays the claim has nothing to do with (e.g. the state of an outer
+        # loop that an inner loop's havoc has replaced) only distract the instantiation engine
+        if any(c.pc_quant):
+            rel_a, n_a = sym.array_slice(rel, t)
+            if n_a < len(rel):
+                s1 = z3.Solver()
+                s1.set("timeout", int(8000 * _load_scale()))
+                for a_ in rel_a:
+                    s1.add(a_)
+                s1.add(z3.Not(t))
+                c.n_solver_calls += 1
+                r1 = s1.check()
+                if os.environ.get("PYVC_DUMP"):
+                    print(f"[pyvc] {oid}: attempt array-slice: {r1} ({n_a} assumptions of {len(c.pc)})", flush=True)
+                if r1 == z3.unsat:
+                    _cross_check(rel_a, t, inst)
+                    inst.update(status="discharged", backend="z3", time=round(time.time() - t0, 4), sliced="array-slice")
+                    self.by_backend["z3"] += 1
+                    self.solver_time += time.time() - t0
+                    self.instances.append(inst)
+                    return
         # (b) the same cone without its nonlinear facts, and (c) with nonlinear products abstracted to an
         # uninterpreted function (congruence is often all a claim needs): both only ever weaken the
         # assumptions, so `unsat` carries over to the real problem
@@ -407,7 +540,7 @@ class Recorder:
         self.solver_time += time.time() - t0
         self.instances.append(inst)
         if os.environ.get("PYVC_DUMP") and time.time() - t0 > 2:
-            print(f"[pyvc] slow: {oid} -> {status} by {backend} in {time.time() - t0:.1f}s on path {c.decisions}", flush=True)
+            print(f"[pyvc] slow: {oid} part {meta.get('_part')} -> {status} by {backend} in {time.time() - t0:.1f}s on path {c.decisions}: {str(ts)[:200]!r}", flush=True)
 
 
 # ----------------------------------------------------------------------------------------------
